@@ -19,7 +19,9 @@ Property clause → theorem
 * "recorded net fees never go negative"                           → `C13.netfees_nonneg` (every history, including those closes)
 * "increase exactly by the fees, interest and penalties paid in, and decrease exactly by what is paid out as locker savings,
    auction lots and debt cover"                                   → `C13.netfees_delta_exact_partial` (every op except the two closes,
-                                                                    on backed books), `C13.netfees_delta_exact_counterexample`
+                                                                    on backed books), `C13.decrease_exact`,
+                                                                    `C13.netfees_delta_exact_counterexample`
+* the two closes after the repair proposed in notes/C13.md        → `C13.repaired_surplus_close_exact`, `C13.repaired_debt_close_exact`
 
 All statements quantify over every configuration (asset ids, app ids, collector lookup keys), every finite op list
 (`Comdex.Locker.Op`: funding, whitelisting, locker create / deposit / withdraw / close / reward calculation, saving-rate change,
@@ -217,6 +219,20 @@ theorem netfees_delta_exact_counterexample :
       feeAsset 2 s'.fees - feeAsset 2 s.fees = 2 ∧ bal s' .collector 2 - bal s .collector 2 = -2 :=
   ⟨runSkip (init [1, 2] [1] [(1, 2)]) [.feeVault 1 2 20, .getAmount 1 2 2],
    runSkip (init [1, 2] [1] [(1, 2)]) witnessSurplus, by decide, by decide, by decide⟩
+
+/-- After the small repair proposed in notes/C13.md the two closes are exact like every other operation: the invariants are
+preserved without any shortfall (`D` unchanged), so `collector_custody_ge_sum_netfees_partial` then covers them as well. -/
+theorem repaired_surplus_close_exact {D : Nat → Int} (s s' : State) (app asset u : Nat) (lot : Int) (hL : LInv s) (hC : CInvD D s)
+    (h : stepRepaired s (.v2SurplusClose app asset u lot) = some s') : LInv s' ∧ CInvD D s' ∧ Delta s s' :=
+  repairedSurplusClose_inv hL hC h
+
+theorem repaired_debt_close_exact {D : Nat → Int} (s s' : State) (app asset : Nat) (c d : Int) (hL : LInv s) (hC : CInvD D s)
+    (h : stepRepaired s (.v2DebtClose app asset c d) = some s') : LInv s' ∧ CInvD D s' ∧ Delta s s' :=
+  repairedDebtClose_inv hL hC h
+
+/-- on the surplus witness the repaired close leaves record and custody equal (18 = 18) -/
+example : ((stepRepaired (runSkip (init [1, 2] [1] [(1, 2)]) [.feeVault 1 2 20, .getAmount 1 2 2]) (.v2SurplusClose 1 2 0 2)).map
+    fun s => (feeAsset 2 s.fees, bal s .collector 2, bal s (.user 0) 2)) = some (18, 18, 2) := by decide
 
 /-! ## non-vacuity: concrete histories on which the hypotheses hold and the interesting branches fire -/
 
